@@ -394,13 +394,13 @@ func init() {
 	vRegister(&vCheck{
 		id: "C24", level: "model_checking", flavour: "vtime",
 		shards: func(string) int { return 15 },
-		rule: "breadth-first search over sequences (depth 2, thorough 3) of 30 runtime updates: UpdateExportOptions with {zero value, only ReadOnly, current, TransferSize -1/0/8192, Timeouts nil / all zero / all negative / DefaultTimeout 0, cache sizes 0, cache timeouts 0, MaxWorkers 0, connection fields 0/negative, Squash changed (+ other fields), Squash respelled in another letter case (+ other fields; accepted or rejected, but as a whole), rate limiting on with nil config}; UpdateTuningOptions mutators {TransferSize 0/negative, Timeouts nil, DefaultTimeout 0, operation timeouts negative, cache 0, MaxWorkers negative, connection 0, Log nil, all zero}; UpdatePolicyOptions {zero value, current, Squash changed, ReadOnly toggled}; states deduplicated on the reported configuration. After every update GetExportOptions is compared field by field with a model that applies the construction defaults, a rejected update must leave every field unchanged, and LOOKUP, READ (count>0) and WRITE (count>0 unless read-only) must be served without panic.",
+		rule: "breadth-first search over sequences (depth 3, thorough 4) of 30 runtime updates: UpdateExportOptions with {zero value, only ReadOnly, current, TransferSize -1/0/8192, Timeouts nil / all zero / all negative / DefaultTimeout 0, cache sizes 0, cache timeouts 0, MaxWorkers 0, connection fields 0/negative, Squash changed (+ other fields), Squash respelled in another letter case (+ other fields; accepted or rejected, but as a whole), rate limiting on with nil config}; UpdateTuningOptions mutators {TransferSize 0/negative, Timeouts nil, DefaultTimeout 0, operation timeouts negative, cache 0, MaxWorkers negative, connection 0, Log nil, all zero}; UpdatePolicyOptions {zero value, current, Squash changed, ReadOnly toggled}; states deduplicated on the reported configuration. After every update GetExportOptions is compared field by field with a model that applies the construction defaults, a rejected update must leave every field unchanged, and LOOKUP, READ (count>0) and WRITE (count>0 unless read-only) must be served without panic.",
 		assumptions: []string{"the construction defaults are those documented on ExportOptions and re-implemented in the check (c24Defaults)", "Log/TLS/RateLimitConfig are compared for nil-ness only"},
 		run: func(c *vCtx) {
 			ops := c24Ops()
-			depth := 2
+			depth := 3
 			if c.thorough() {
-				depth = 3
+				depth = 4
 			}
 			eng := &vHist[*c24State, c24Op]{
 				New:     func() *c24State { return c24New(c) },
